@@ -333,7 +333,7 @@ pub fn run(mode: Mode) -> i32 {
     let seed = ctx.seed;
     let maxlen = ctx.tier.pick(160usize, 400);
     let modestr = if mode == Mode::Leak { "leak" } else { "tamper" };
-    ctx.rule = format!("single-fault enumeration: for every base case (family in {{secretbox, box, sealedbox, stream}} x message length 0..={} x key alphabet) every member of the fault family — each bit of the wire (tag/MAC, body, sealed-box ephemeral key, stream tag byte), each bit of nonce / symmetric or precomputed key / stream header / associated data, AD present<->absent, truncation to every shorter length, extension by 1..=17,32,64 bytes of 00/ff/repeat-last — plus the untampered control, is applied once and presented to every open form of that family ({} AEAD forms + 2 stream forms); {}; non-trivial = (base, fault, form) triple executed (NA pairs, e.g. a detached form on a wire shorter than a tag, are counted as evaluations but not as non-trivial)", maxlen, OPEN.len(),
+    ctx.rule = format!("single-fault enumeration: for every base case (family in {{secretbox, box, sealedbox, stream}} x message length 0..={} x key alphabet) every member of the fault family — each bit of the wire (tag/MAC, body, sealed-box ephemeral key, stream tag byte), each bit of nonce / symmetric or precomputed key / stream header / associated data, AD present<->absent, truncation to every shorter length, extension by 1..=17,32,64 bytes of 00/ff/repeat-last — plus the untampered control, is applied once and presented to every open form of that family ({} AEAD forms + 2 stream forms); {}; long messages (1023..16385 bytes quick, up to 256 KiB thorough) with the structural fault family (control, truncations, extensions, key/nonce/header/AD faults, both edge bits of every component edge and of every 64*2^k / 1 KiB boundary +-1,+-17); non-trivial = (base, fault, form) triple executed (NA pairs, e.g. a detached form on a wire shorter than a tag, are counted as evaluations but not as non-trivial)", maxlen, OPEN.len(),
         if mode == Mode::Leak { "oracle: after Err the caller's message buffer (prefilled with a sentinel; the submitted ciphertext for in-place forms) and the stream tag variable are byte-identical to what they were, or all zero" } else { "oracle: control => Ok(original message); every fault => Err (a panic is a violation); libsodium's verdict on the same faulty input must agree" });
     ctx.assume("a flipped key bit is rejected only with probability 1-2^-128 in principle; accepted as residual");
     ctx.assume("public/secret key bits of the box forms are not flipped (clamped / masked bits leave the key unchanged); the precomputed key is");
@@ -425,6 +425,100 @@ pub fn run(mode: Mode) -> i32 {
         }
     });
     ctx.absorb("stream", st);
+    // long messages: chunked / striped / single-pass code paths only engage above some size;
+    // every structural position (component edges, every 64-byte and 1 KiB boundary +-1) is faulted
+    let long_lens: Vec<usize> = match ctx.tier {
+        Tier::Quick => vec![1023, 1024, 1025, 4095, 4096, 4097, 8192, 16385],
+        Tier::Thorough => vec![511, 512, 513, 1023, 1024, 1025, 2048, 4095, 4096, 4097, 8191, 8192, 8193, 16384, 16385, 65536, 65537, 262145],
+    };
+    fn structural_bits(wire_len: usize) -> Vec<usize> {
+        let mut bytes: Vec<usize> = vec![0, 1, 15, 16, 17, 31, 32, 33, 47, 48, 49, wire_len - 1, wire_len - 2, wire_len - 16, wire_len - 17, wire_len - 18, wire_len / 2];
+        let mut b = 64;
+        while b < wire_len {
+            for d in [0usize, 1, 16, 17] {
+                if b + d < wire_len {
+                    bytes.push(b + d);
+                }
+                if b >= d + 1 {
+                    bytes.push(b - d - 1);
+                }
+            }
+            b = if b < 1024 { b * 2 } else { b + 1024 };
+        }
+        bytes.sort();
+        bytes.dedup();
+        bytes.into_iter().filter(|x| *x < wire_len).flat_map(|x| [x * 8, x * 8 + 7]).collect()
+    }
+    let mut units: Vec<(usize, usize)> = vec![]; // family (0..3 aead, 3 stream), len
+    for f in 0..4 {
+        for &l in &long_lens {
+            units.push((f, l));
+        }
+    }
+    let st = par_units(&units, |&(fi, len), st| {
+        let m = cval(seed, 3, len);
+        if fi < 3 {
+            let fam = fams[fi];
+            let ks = Keys::make(seed, 3, 1);
+            let wire = ref_wire(fam, &ks, &m);
+            let forms: Vec<_> = OPEN.iter().filter(|o| o.1 == fam).collect();
+            let mut faults = vec![Fault::None, Fault::Trunc(wire.len() - 1), Fault::Trunc(wire.len() - 16), Fault::Trunc(overhead(fam)), Fault::Extend(1, 0), Fault::Extend(16, 2), Fault::Extend(64, 1)];
+            faults.extend(structural_bits(wire.len()).into_iter().map(Fault::WireBit));
+            if fam != Fam::Seal {
+                faults.extend([Fault::NonceBit(0), Fault::NonceBit(191), Fault::KeyBit(0), Fault::KeyBit(255)]);
+            }
+            for fault in faults {
+                let (k2, w2) = apply_aead(&fault, &ks, &wire);
+                let fclass = fault_class(&fault, overhead(fam), wire.len());
+                let sodium_ok = if mode == Mode::Tamper {
+                    Some(match (fam, fault) {
+                        (Fam::Bx, Fault::KeyBit(_)) => sodium::secretbox_open_easy(&w2, &k2.n, &k2.pre).is_some(),
+                        _ => ref_open(fam, &k2, &w2).is_some(),
+                    })
+                } else {
+                    None
+                };
+                for o in &forms {
+                    if fam == Fam::Bx && matches!(fault, Fault::KeyBit(_)) && !uses_pre(o.0) {
+                        continue;
+                    }
+                    let out = (o.2)(&k2, &w2, SENTINEL);
+                    let (oc, f) = judge(mode, prop, o.0, fam_name(fam), fclass, fault == Fault::None, &out, &m, sodium_ok);
+                    st.eval(&("long", fi, len, fault, o.0), out.v != Verdict::NA, &oc);
+                    if let Some((sig, what)) = f {
+                        st.fail(Fail { check: "C02.fault".into(), signature: format!("{}/long-message", sig), what: format!("{} on {} message of {} bytes, fault {:?}: {}", o.0, fam_name(fam), len, fault, what), case: json!({"mode": modestr, "family": fam_name(fam), "form": o.0, "keys": ks.json(), "msg": hx(&m), "fault": fault}) });
+                    }
+                }
+            }
+        } else {
+            for (ai, adl) in [None, Some(17usize)].iter().enumerate() {
+                let tagv: u8 = [0u8, 3][ai];
+                let b = stream_base(seed, 3, len, *adl, tagv);
+                let mut want = b.msg.clone();
+                want.push(b.tag);
+                let mut faults = vec![Fault::None, Fault::Trunc(b.wire.len() - 1), Fault::Trunc(17), Fault::Extend(1, 0), Fault::Extend(16, 2), Fault::HeaderBit(0), Fault::HeaderBit(191), Fault::KeyBit(3), Fault::AdToggle];
+                faults.extend(structural_bits(b.wire.len()).into_iter().map(Fault::WireBit));
+                for fault in faults {
+                    let Some(s) = apply_stream(&fault, &b) else { continue };
+                    let fclass = fault_class(&fault, 1, b.wire.len());
+                    let sodium_ok = if mode == Mode::Tamper { Some(stream_sodium(&s)) } else { None };
+                    for form in 0..2 {
+                        let out = stream_open(form, &s);
+                        let (oc, f) = judge(mode, prop, STREAM_FORMS[form], "stream", fclass, fault == Fault::None, &out, &want, sodium_ok);
+                        st.eval(&("long-stream", len, ai, fault, form), true, &oc);
+                        if let Some((sig, what)) = f {
+                            st.fail(Fail { check: "C02.fault".into(), signature: format!("{}/long-message", sig), what: format!("{} on stream message of {} bytes (ad {:?}), fault {:?}: {}", STREAM_FORMS[form], len, adl, fault, what), case: json!({"mode": modestr, "family": "stream", "form": STREAM_FORMS[form], "seed": seed, "ki": 3, "mlen": len, "adlen": adl, "tag": tagv, "fault": fault}) });
+                        }
+                    }
+                }
+            }
+        }
+        if len == 4096 && fi == 3 {
+            st.sample(json!({"family": "stream", "msg_len": 4096, "faults": "control + truncations + extensions + header/key/AD faults + both edge bits of every structural byte position (component edges, 64*2^k and every 1 KiB boundary +-1,+-17)"}));
+        }
+    });
+    ctx.note("long_message_lengths", json!(long_lens));
+    ctx.absorb("long-messages", st);
     if mode == Mode::Tamper {
         ctx.require_outcome("control-accepted");
         ctx.require_outcome("tamper-rejected");
